@@ -15,6 +15,9 @@ RULE = ('Hypothesis: lists of 1..10 values: ints (|x| <= 10^6), floats '
 RULE += (
          'Also: the summarised variable named like sequence variables '
          '(item, key, count, length, index); no_push_item. ')
+RULE += (
+         'Second summarised variable asked interleaved; fixed lists '
+         'under every option x name x order x kind. ')
 ASSUMPTIONS = [
     'count, min, max exact; total exact for ints and within tolerance for '
     'floats; mean within 1e-9*(1+mean square), variance / variance-n within '
